@@ -601,11 +601,113 @@ Proof.
     unfold mt_action in Ea. cbn [fst snd] in Ea. unfold mt_spec, mt_derived in *. rewrite !alookup_snoc.
     pose proof (IH k_swap) as IHs. pose proof (IH k_high) as IHh. specialize (IH i).
     repeat (case_decide; subst; try congruence);
-      repeat match goal with
-             | c : mt_config |- _ => destruct c
-             | H : context [find_class ?c ?n] |- _ => destruct (find_class c n) as [[[]|]|] eqn:?
-             end; try discriminate; injection Ea as <-; cbv beta;
+      try (destruct cfg as [classes|]);
+      try (match type of Ea with context [find_class ?c ?n] => destruct (find_class c n) as [[[]|]|] eqn:Efc end);
+      try discriminate; injection Ea as <-; cbv beta;
       rewrite ?lookup_insert_dec, ?lookup_assoc_keep; repeat (case_decide; subst; try congruence);
-      rewrite ?Hk in *; rewrite ?IHs, ?IHh, ?IH; cbn [default];
-      repeat match goal with H : find_class _ _ = _ |- _ => rewrite H; clear H end; fin.
+      rewrite ?Hk in *; rewrite ?IHs, ?IHh, ?IH; cbn [default]; rewrite ?Efc; fin.
+Qed.
+
+(* ------------------------------------------------------------------ corollaries, instances *)
+
+Definition epc_of (v : str) : epc_res := match parse_uint64 v with Some n => EpcOk n | None => EpcErr end.
+
+Lemma epc_precedence l c :
+  NoDup l.*1 ->
+  (forall v, (key_container epc_key c, v) ∈ l -> parse_epc_limit l c = epc_of v) /\
+  (key_container epc_key c ∉ l.*1 -> forall v, (key_pod epc_key, v) ∈ l -> parse_epc_limit l c = epc_of v) /\
+  (key_container epc_key c ∉ l.*1 -> key_pod epc_key ∉ l.*1 ->
+   parse_epc_limit l c = match alookup l epc_key with Some v => epc_of v | None => EpcOk 0 end).
+Proof.
+  intros Hnd. destruct (eff3_precedence l epc_key c Hnd) as (H1 & H2 & H3). unfold parse_epc_limit, epc_of.
+  repeat split.
+  - intros v Hv. now rewrite (H1 v Hv).
+  - intros Hc v Hv. now rewrite (H2 Hc v Hv).
+  - intros Hc Hp. now rewrite (H3 Hc Hp).
+Qed.
+
+Lemma epc_others_irrelevant l l' c :
+  (forall k, (forall d, d <> c -> k <> key_container epc_key d) -> alookup l k = alookup l' k) ->
+  parse_epc_limit l c = parse_epc_limit l' c.
+Proof. intros H. unfold parse_epc_limit. now rewrite (eff3_others_irrelevant l l' epc_key c H). Qed.
+
+Lemma plugin_others_irrelevant suffix c d p v l1 l2 :
+  slash ∉ suffix -> slash ∉ c -> name_ok suffix d -> d <> c ->
+  effective_annotations suffix c (l1 ++ (p ++ suffix ++ slash :: d, v) :: l2) =
+  effective_annotations suffix c (l1 ++ l2).
+Proof.
+  intros Hs Hc Hd Hne. apply effective_annotations_drop. cbn [fst]. now apply other_container_ignored.
+Qed.
+
+Lemma mq_suffix_noslash : slash ∉ mq_suffix.
+Proof. apply (bool_decide_unpack (slash ∉ mq_suffix)). vm_compute. exact I. Qed.
+Lemma mt_suffix_noslash : slash ∉ mt_suffix.
+Proof. apply (bool_decide_unpack (slash ∉ mt_suffix)). vm_compute. exact I. Qed.
+
+Definition dot : ascii := "."%char.
+(* Kubernetes container names are DNS labels: no '/', no '.' -- always inside the domain *)
+Lemma dns_label_ok d : slash ∉ d -> dot ∉ d -> name_ok mq_suffix d /\ name_ok mt_suffix d.
+Proof.
+  intros Hs Hd. split; (split; [assumption|]); intros [z ->]; apply Hd, elem_of_app; right; left.
+Qed.
+
+Lemma mq_create_others_irrelevant cfg c d p v l1 l2 :
+  slash ∉ c -> name_ok mq_suffix d -> d <> c ->
+  mq_create cfg c (l1 ++ (p ++ mq_suffix ++ slash :: d, v) :: l2) = mq_create cfg c (l1 ++ l2).
+Proof.
+  intros Hc Hd Hne. unfold mq_create. now rewrite (plugin_others_irrelevant _ _ _ _ _ _ _ mq_suffix_noslash Hc Hd Hne).
+Qed.
+Lemma mt_create_others_irrelevant cfg c d p v l1 l2 :
+  slash ∉ c -> name_ok mt_suffix d -> d <> c ->
+  mt_create cfg c (l1 ++ (p ++ mt_suffix ++ slash :: d, v) :: l2) = mt_create cfg c (l1 ++ l2).
+Proof.
+  intros Hc Hd Hne. unfold mt_create. now rewrite (plugin_others_irrelevant _ _ _ _ _ _ _ mt_suffix_noslash Hc Hd Hne).
+Qed.
+
+Lemma mq_explicit_beats_class cfg ord u k v :
+  NoDup ord.*1 -> mq_fold cfg ord = COk u -> (k, v) ∈ ord -> k <> k_class -> u !! k = Some v.
+Proof. intros Hnd Hu. now apply (mq_explicit_wins cfg ord Hnd u Hu). Qed.
+
+Lemma mt_explicit_beats_class cfg ord u v :
+  NoDup ord.*1 -> mt_fold cfg ord = COk u -> (k_swap, v) ∈ ord -> u !! k_swap = Some v.
+Proof.
+  intros Hnd Hu Hin. rewrite (mt_fold_spec cfg ord Hnd u Hu). unfold mt_spec.
+  rewrite decide_True by reflexivity. apply alookup_Some in Hin; [|assumption]. now rewrite Hin.
+Qed.
+
+(* outside the domain: a container whose name contains '/', or ends with the annotation
+   suffix, makes memory-qos fail the creation of ANOTHER container of the pod *)
+Definition w_cfg : mq_config := {| mq_unified := [k_high; k_swap]; mq_classes := [] |}.
+Lemma mq_other_container_refuted_slash :
+  exists c d p v, d <> c /\ slash ∉ c /\
+    mq_create w_cfg c [(p ++ mq_suffix ++ slash :: d, v)] <> mq_create w_cfg c [].
+Proof.
+  exists (s "c"), (s "y.memory-qos.nri.io/c"), k_high, (s "1").
+  split; [discriminate|]. split; [apply (bool_decide_unpack (slash ∉ _)); vm_compute; exact I|].
+  vm_compute. discriminate.
+Qed.
+Lemma mq_other_container_refuted_suffix_name :
+  exists c d p v, d <> c /\ slash ∉ c /\ slash ∉ d /\
+    mq_create w_cfg c [(p ++ mq_suffix ++ slash :: d, v)] <> mq_create w_cfg c [].
+Proof.
+  exists (s "c"), (s "x.memory-qos.nri.io"), k_high, (s "1").
+  split; [discriminate|]. split; [apply (bool_decide_unpack (slash ∉ _)); vm_compute; exact I|].
+  split; [apply (bool_decide_unpack (slash ∉ _)); vm_compute; exact I|].
+  vm_compute. discriminate.
+Qed.
+
+(* the hypotheses are satisfiable, on names that are prefixes/suffixes of each other *)
+Lemma ex_names_ok :
+  own_ok mq_suffix (s "app") /\ name_ok mq_suffix (s "app-1") /\ name_ok mq_suffix (s "1.app") /\
+  name_ok mt_suffix (s "memtierd.nri.io") /\ own_ok mt_suffix (s "pp").
+Proof.
+  assert (forall suffix d, bool_decide (slash ∉ suffix) = true -> bool_decide (slash ∉ d) = true ->
+            (List.length d < List.length suffix)%nat -> own_ok suffix d /\ name_ok suffix d) as H.
+  { intros suffix d H1 H2 Hlen. apply bool_decide_eq_true in H1, H2.
+    assert (~ suffix `suffix_of` d) as Hn.
+    { intros [z ->]. rewrite app_length in Hlen. lia. }
+    repeat split; assumption. }
+  refine (conj (proj1 (H _ _ _ _ _)) (conj (proj2 (H _ _ _ _ _)) (conj (proj2 (H _ _ _ _ _))
+           (conj (proj2 (H _ _ _ _ _)) (proj1 (H _ _ _ _ _))))));
+    vm_compute; (reflexivity || lia).
 Qed.
